@@ -140,19 +140,31 @@ func LabelSelectorAsSelector(ps *metav1.LabelSelector) (labels.Selector, error) 
 	return s, nil
 }
 
-func RetryOnConflict(backoff wait.Backoff, fn func() error) error {
+// RetryOnError models retry.OnError: fn is attempted backoff.Steps times (as
+// wait.ExponentialBackoff does; no sleeping, no jitter), a nil error or one
+// that is not retriable ends it, and after the last attempt the last error is
+// returned.
+func RetryOnError(backoff wait.Backoff, retriable func(error) bool, fn func() error) error {
+	steps := backoff.Steps
+	if steps < 1 {
+		steps = 1
+	}
 	var last error
-	for i := 0; i < 4; i++ {
+	for i := 0; i < steps; i++ {
 		err := fn()
 		if err == nil {
 			return nil
 		}
-		if !apierrors.IsConflict(err) {
+		if !retriable(err) {
 			return err
 		}
 		last = err
 	}
 	return last
+}
+
+func RetryOnConflict(backoff wait.Backoff, fn func() error) error {
+	return RetryOnError(backoff, apierrors.IsConflict, fn)
 }
 
 func Unstructured_GetCreationTimestamp(u *unstructured.Unstructured) metav1.Time {
